@@ -52,17 +52,20 @@ type ssaRun struct {
 }
 
 type ssaEventM struct {
-	Start   int64      `json:"start_cs"`
-	End     int64      `json:"end_cs"`
-	Layer   *int       `json:"layer,omitempty"`
-	Marked  *bool      `json:"marked,omitempty"`
-	MarginL *int       `json:"margin_l,omitempty"`
-	MarginR *int       `json:"margin_r,omitempty"`
-	MarginV *int       `json:"margin_v,omitempty"`
-	Effect  string     `json:"effect,omitempty"`
-	Name    string     `json:"name,omitempty"`
-	Style   string     `json:"style,omitempty"`
-	Lines   [][]ssaRun `json:"lines"`
+	Start   int64  `json:"start_cs"`
+	End     int64  `json:"end_cs"`
+	Layer   *int   `json:"layer,omitempty"`
+	Marked  *bool  `json:"marked,omitempty"`
+	MarginL *int   `json:"margin_l,omitempty"`
+	MarginR *int   `json:"margin_r,omitempty"`
+	MarginV *int   `json:"margin_v,omitempty"`
+	Effect  string `json:"effect,omitempty"`
+	Name    string `json:"name,omitempty"`
+	Style   string `json:"style,omitempty"`
+	// Ghost: what the Style cell of an event without a style holds: the name of a style the script does not define
+	// (also not without a leading '*', also not in another case) - the event denotes no style
+	Ghost string     `json:"ghost,omitempty"`
+	Lines [][]ssaRun `json:"lines"`
 }
 
 type ssaDoc struct {
@@ -306,6 +309,9 @@ func renderSSA(d ssaDoc, r ssaRendering) []byte {
 				cells = append(cells, fmtSSATime(e.End, r.ShortHour))
 			case "Style":
 				st := e.Style
+				if st == "" {
+					st = e.Ghost
+				}
 				if r.StarStyle && st != "" {
 					st = "*" + st
 				}
@@ -815,6 +821,9 @@ func genSSADoc(t *rapid.T, write bool) (ssaDoc, map[string]bool) {
 		e.Name = rapid.SampledFrom([]string{"", "", "Cher", "NTP", "Mr. X"}).Draw(t, "name")
 		if ns > 0 && rapid.IntRange(0, 3).Draw(t, "hasstyle") > 0 {
 			e.Style = d.Styles[rapid.IntRange(0, ns-1).Draw(t, "style")].Name
+		}
+		if e.Style == "" && !write && i%2 == 0 {
+			e.Ghost = []string{"Ghost", "default", "Defaults"}[i/2%3]
 		}
 		nl := rapid.IntRange(1, 3).Draw(t, "lines")
 		for j := 0; j < nl; j++ {
